@@ -5,8 +5,10 @@
   BuildTxListExt), lib/script/misc.go UintToScript.
   The order of the checks and the (dos, maybelater) outputs are mirrored statement by statement.
   Not modelled here: the byte-level transaction parser `NewTx` (property C09) — a parsed transaction is
-  an input (`Tx`), and so are the two map look-ups of PreCheckBlock. Hash function = parameter `h`
-  (the oracle instantiates it with SHA-256d). Go panics = `none`. Core-only.
+  an input (`Tx`). The two `BlockIndex` look-ups of PreCheckBlock are by the 8-byte key `bidx` of a hash; what
+  `preCheckBlock` receives is the entry found (with its WHOLE hash) and it makes the whole-hash comparisons itself
+  (whether the source makes them is regenerated: `knownHashCompared`, `parentHashCompared`).
+  Hash function = parameter `h` (the oracle instantiates it with SHA-256d). Go panics = `none`. Core-only.
 -/
 import GocoinV.Base.Bytes
 import GocoinV.Model.Retarget
@@ -26,25 +28,30 @@ structure Consensus where
 /-! ### PreCheckBlock -/
 
 inductive PreErr
-  | ok | badLength | badVersion | highHash | timeTooNew | genesis | duplicate | noParent | tooDeep
+  | ok | badLength | badVersion | highHash | timeTooNew | keyCollision | genesis | duplicate | noParent | tooDeep
   | badDiffBits | timeTooOld | badVersionGate
   deriving Repr, DecidableEq
 
 def PreErr.code : PreErr → String
   | .ok => "ok" | .badLength => "bad-blk-length" | .badVersion => "bad-version" | .highHash => "high-hash"
-  | .timeTooNew => "time-too-new" | .genesis => "genesis" | .duplicate => "duplicate" | .noParent => "bad-prevblk"
+  | .timeTooNew => "time-too-new" | .keyCollision => "index-collision" | .genesis => "genesis" | .duplicate => "duplicate" | .noParent => "bad-prevblk"
   | .tooDeep => "too-deep" | .badDiffBits => "bad-diffbits" | .timeTooOld => "time-too-old"
   | .badVersionGate => "bad-version-gate"
+
+/-- `Uint256.BIdx()`: the first 8 bytes of a hash = the low 64 bits of its little-endian number. The key of
+    `Chain.BlockIndex`. -/
+def bidx (h : Nat) : Nat := h % 2^64
 
 structure PreIn where
   rawLen : Nat
   ver : Nat                     -- bl.Version(), uint32
-  hash : Nat                    -- bl.Hash.BigInt()
+  hash : Nat                    -- bl.Hash as a little-endian number (= bl.Hash.BigInt())
+  parentHash : Nat              -- bl.ParentHash(): the header's previous-block FIELD, as a little-endian number
   bits : Nat                    -- bl.Bits()
   time : Nat                    -- bl.BlockTime()
   now : Int                     -- time.Now().Unix()
-  known : Option Bool           -- ch.BlockIndex[bl.Hash.BIdx()]: `some true` = present with Parent == nil
-  parent : Option (List Node)   -- ch.BlockIndex[parent hash]: prevblk and its ancestors
+  known : Option (Nat × Bool)   -- ch.BlockIndex[bl.Hash.BIdx()]: (entry.BlockHash, entry.Parent == nil)
+  parent : Option (Nat × List Node)   -- ch.BlockIndex[BIdx(bl.ParentHash())]: (prevblk.BlockHash, prevblk and its ancestors)
   parentIsLast : Bool           -- prevblk == ch.LastBlock()
   lastHeight : Nat              -- ch.LastBlock().Height
 
@@ -68,6 +75,13 @@ def versionRejected (c : Consensus) (ver height : Nat) : Bool :=
   (decide (signedVersion ver < minVersion_BIP66Height) && decide (height ≥ c.bip66Height)) ||
   (decide (signedVersion ver < minVersion_BIP65Height) && decide (height ≥ c.bip65Height))
 
+/-- the parent as PreCheckBlock obtains it: the `BlockIndex` entry under the 8-byte key of the previous-block
+    field, kept only if its WHOLE hash is that field (`!ok || !bytes.Equal(prevblk.BlockHash.Hash[:], bl.ParentHash())`) -/
+def parentOf (i : PreIn) : Option (List Node) :=
+  match i.parent with
+  | none => none
+  | some (ph, ch) => if parentHashCompared && ph != i.parentHash then none else some ch
+
 def preCheckBlock (p : Params) (c : Consensus) (i : PreIn) : Option PreOut :=
   if i.rawLen < preMinRawLen then some { dos := true, maybelater := false, err := .badLength }
   else if signedVersion i.ver = forbiddenVersion then some { dos := true, maybelater := false, err := .badVersion }
@@ -75,10 +89,12 @@ def preCheckBlock (p : Params) (c : Consensus) (i : PreIn) : Option PreOut :=
   else if (i.time : Int) > i.now + maxFutureBlockTime then
     some { dos := decide ((i.time : Int) > i.now + futureDosLimit), maybelater := false, err := .timeTooNew }
   else match i.known with
-  | some true => some { dos := false, maybelater := false, err := .genesis }
-  | some false => some { dos := false, maybelater := false, err := .duplicate }
+  | some (kh, isGenesis) =>
+    if knownHashCompared && kh != i.hash then some { dos := false, maybelater := false, err := .keyCollision }
+    else if isGenesis then some { dos := false, maybelater := false, err := .genesis }
+    else some { dos := false, maybelater := false, err := .duplicate }
   | none =>
-    match i.parent with
+    match parentOf i with
     | none => some { dos := false, maybelater := true, err := .noParent }
     | some [] => none
     | some (prev :: anc) =>
@@ -340,12 +356,15 @@ def checkBlockDos (pre : PreOut) (post : Option PostErr) : Bool :=
   writes only into the block object it is given: `bl.Height`, `bl.MedianPastTime` (PreCheckBlock), `bl.Txs` (+ the
   sizes/weight BuildTxList derives from `bl.Raw`) and `bl.VerifyFlags` (PostCheckBlock). `checkBlockM` threads the
   chain state through every path and returns it, so that "nothing changes" is a statement about this definition.
-  The two map look-ups that `preCheckBlock` takes as inputs are made here, from the state. -/
+  The two map look-ups that `preCheckBlock` takes as inputs are made here, from the state: by the 8-byte key
+  `bidx` of the block's hash / of the header's previous-block field; the entry found is handed over together with
+  its whole hash. -/
 
 /-- what `CheckBlock` can reach of `chain.Chain`: the block tree, the `BlockIndex` map, the tip and the unspent
     set (`U` is opaque: no statement of CheckBlock mentions `ch.Unspent`) -/
 structure ChainSt (U : Type) where
   nodes : Array (Node × Int)     -- BlockTreeNode (height, timestamp, bits) and the number of its Parent (-1 = nil)
+  hashes : Array Nat             -- BlockTreeNode.BlockHash of node k, as a little-endian number (whole 32 bytes)
   index : List (Nat × Nat)       -- BlockIndex: BIdx (first 8 bytes of the hash, little endian) ↦ node number
   last : Nat                     -- node number of ch.LastBlock()
   unspent : U
@@ -363,14 +382,16 @@ def ChainSt.chain {U : Type} (cs : ChainSt U) (idx : Nat) : List Node := chainOf
 
 def lookupKey (l : List (Nat × Nat)) (k : Nat) : Option Nat := (l.find? (·.1 == k)).map (·.2)
 
+/-- `BlockHash` of node `n` (whole hash) -/
+def ChainSt.hashOf {U : Type} (cs : ChainSt U) (n : Nat) : Nat := cs.hashes[n]?.getD 0
+
 /-- the `*btc.Block` object -/
 structure BlockObj where
   -- fixed by `Raw` / set by the caller before CheckBlock
   rawLen : Nat
   ver : Nat
-  hash : Nat                      -- bl.Hash as a number (PoW test)
-  hashKey : Nat                   -- bl.Hash.BIdx()
-  parentKey : Nat                 -- BIdx of bl.ParentHash()
+  hash : Nat                      -- bl.Hash as a little-endian number (PoW test; its `bidx` is bl.Hash.BIdx())
+  parentHash : Nat                -- bl.ParentHash(), the previous-block field of the header, as a little-endian number
   bits : Nat
   time : Nat
   merkleRoot : Bytes
@@ -401,10 +422,11 @@ def PostErr.setsFlags : PostErr → Bool
 
 /-- the inputs of `preCheckBlock` as PreCheckBlock obtains them from the chain state -/
 def preInOf {U : Type} (cs : ChainSt U) (bl : BlockObj) (now : Int) : PreIn :=
-  let parentIdx := lookupKey cs.index bl.parentKey
-  { rawLen := bl.rawLen, ver := bl.ver, hash := bl.hash, bits := bl.bits, time := bl.time, now := now,
-    known := (lookupKey cs.index bl.hashKey).map (fun n => match cs.nodes[n]? with | some (_, p) => decide (p < 0) | none => false),
-    parent := parentIdx.map cs.chain,
+  let parentIdx := lookupKey cs.index (bidx bl.parentHash)
+  { rawLen := bl.rawLen, ver := bl.ver, hash := bl.hash, parentHash := bl.parentHash, bits := bl.bits, time := bl.time, now := now,
+    known := (lookupKey cs.index (bidx bl.hash)).map
+      (fun n => (cs.hashOf n, match cs.nodes[n]? with | some (_, p) => decide (p < 0) | none => false)),
+    parent := parentIdx.map (fun n => (cs.hashOf n, cs.chain n)),
     parentIsLast := parentIdx == some cs.last,
     lastHeight := match cs.nodes[cs.last]? with | some (n, _) => n.height | none => 0 }
 
